@@ -10,45 +10,6 @@ arithmetic of public-key recovery, and the group-law steps of sign-then-verify. 
 namespace MsgLemmas
 open Py Spec Model Secp
 
-/-- root selection of `verify_message` -/
-def pickRoot (ys : List Nat) (recid : Nat) : Except PyErr Nat :=
-  match ys.head? with
-  | none => .error .indexError
-  | some y0 =>
-    if (y0 + recid) % 2 = 0 then .ok y0
-    else match ys[1]? with
-      | some y1 => .ok y1
-      | none => .error .indexError
-
-/-- `verify_message` in if/match normal form, with the arithmetic primitives as parameters (so that proofs
-about the control flow never make the kernel evaluate curve arithmetic) -/
-def verifyN (sq : Nat → List Nat) (oc : Point → Bool) (mulF : Point → Nat → Point) (addF : Point → Point → Point)
-    (g : Point) (inv : Nat → Nat) (verD : Nat × Nat → Nat → Nat → Nat → Except PyErr Bool) (nn pp : Nat)
-    (z : Nat) (addrOf : Nat × Nat → Bool → String) (address : String) (sig : Bytes) : Except PyErr Bool :=
-  if sig.length ≠ 65 then .error .valueError
-  else
-    let h := (sig.getD 0 0).toNat
-    if h < 27 ∨ h > 35 then .ok false
-    else
-      let recid := if h ≥ 31 then h - 31 else h - 27
-      let r := ofBE ((sig.drop 1).take 32)
-      let s := ofBE ((sig.drop 33).take 32)
-      let x := r + (recid / 2) * nn
-      match pickRoot (sq ((x ^ 3 + 7) % pp)) recid with
-      | .error e => .error e
-      | .ok y =>
-        if oc (some (x % pp, y)) = false then .error .assertion
-        else if r % nn = 0 then .error .other
-        else
-          match mulF (addF (mulF (some (x % pp, y)) s) (mulF g ((nn - z % nn) % nn))) (inv (r % nn)) with
-          | none => .error .other
-          | some q =>
-            match verD q z r s with
-            | .error e => .error e
-            | .ok v =>
-              if v = false then .ok false
-              else if addrOf q (decide (h ≥ 31)) = address then .ok true else .ok false
-
 theorem bind_throw {α β : Type} (e : PyErr) (f : α → Except PyErr β) : ((throw e : Except PyErr α) >>= f) = Except.error e := rfl
 theorem bind_pure' {α β : Type} (a : α) (f : α → Except PyErr β) : ((pure a : Except PyErr α) >>= f) = f a := rfl
 theorem bind_ok {α β : Type} (a : α) (f : α → Except PyErr β) : ((Except.ok a : Except PyErr α) >>= f) = f a := rfl
@@ -56,65 +17,11 @@ theorem bind_err {α β : Type} (e : PyErr) (f : α → Except PyErr β) : ((Exc
 theorem pure_ok {α : Type} (a : α) : (pure a : Except PyErr α) = Except.ok a := rfl
 theorem throw_err {α : Type} (e : PyErr) : (throw e : Except PyErr α) = Except.error e := rfl
 
-set_option hygiene false in
-local macro "tailtac" : tactic => `(tactic| (
-  try simp -implicitDefEqProofs only [bind_ok]
-  generalize oc _ = ocv
-  generalize mulF (addF _ _) _ = Q
-  cases ocv
-  · simp
-  · by_cases hr : r % nn = 0
-    · simp [hr]
-    · cases Q with
-      | none => simp [hr]
-      | some q =>
-        simp only [hr, if_false]
-        generalize verD q z r s = res
-        cases res with
-        | error e => simp [bind_err]
-        | ok v => cases v <;> simp [bind_ok]))
-
 theorem verifyMessage_eq (sha256 : Bytes → Bytes) (magic : Bytes) (addrOf : Nat × Nat → Bool → String)
     (address : String) (sig msg : Bytes) :
     verifyMessage sha256 magic addrOf address sig msg =
       verifyN sqrtAll onCurve mul add G invN ecdsaVerifyDigest n p (ofBE (msgDigest sha256 magic msg))
-        addrOf address sig := by
-  unfold verifyMessage verifyN
-  generalize sqrtAll = sq
-  generalize onCurve = oc
-  generalize mul = mulF
-  generalize add = addF
-  generalize G = g
-  generalize invN = inv
-  generalize ecdsaVerifyDigest = verD
-  generalize n = nn
-  generalize p = pp
-  generalize ofBE (msgDigest sha256 magic msg) = z
-  simp -implicitDefEqProofs only [throw_err, pure_ok, bind_ok, bind_err]
-  by_cases hlen : sig.length ≠ 65
-  · rw [if_pos hlen, if_pos hlen]
-  rw [if_neg hlen, if_neg hlen]
-  by_cases hw : (List.getD sig 0 0).toNat < 27 ∨ (List.getD sig 0 0).toNat > 35
-  · rw [if_pos hw, if_pos hw]
-  rw [if_neg hw, if_neg hw]
-  generalize (sq _) = ys
-  generalize (if (List.getD sig 0 0).toNat ≥ 31 then _ else _) = recid
-  generalize ofBE (List.take 32 (List.drop 1 sig)) = r
-  generalize ofBE (List.take 32 (List.drop 33 sig)) = s
-  generalize decide ((List.getD sig 0 0).toNat ≥ 31) = c
-  rw [pickRoot]
-  cases ys.head? with
-  | none => rfl
-  | some y0 =>
-    simp -implicitDefEqProofs only []
-    by_cases hp : (y0 + recid) % 2 = 0
-    · rw [if_pos hp, if_pos hp]
-      tailtac
-    · rw [if_neg hp, if_neg hp]
-      cases ys[1]? with
-      | none => rfl
-      | some y1 =>
-        tailtac
+        addrOf address sig := rfl
 
 /-! ### consequences of the normal form (all primitives abstract) -/
 section abstract
